@@ -104,7 +104,76 @@ func Load(repo string, overlay map[string][]byte) (*Program, error) {
 		}
 	}
 	sort.Slice(p.All, func(i, j int) bool { return p.All[i].PkgPath < p.All[j].PkgPath })
+	indexFuncAliases(p.All)
 	return p, nil
+}
+
+// funcAlias: local variables that are nothing but another name of a function or method value: defined once by
+// `v := pkg.F` / `v := x.M`, never assigned again, address never taken. A call of such a variable is a call of the
+// function (CalleeName / CalleeFunc resolve it).
+var funcAlias = map[*types.Var]*types.Func{}
+
+func indexFuncAliases(pkgs []*packages.Package) {
+	funcAlias = map[*types.Var]*types.Func{}
+	for _, pkg := range pkgs {
+		info := pkg.TypesInfo
+		if info == nil {
+			continue
+		}
+		writes := map[*types.Var]int{}
+		cand := map[*types.Var]*types.Func{}
+		for _, file := range pkg.Syntax {
+			ast.Inspect(file, func(n ast.Node) bool {
+				switch x := n.(type) {
+				case *ast.AssignStmt:
+					for i, l := range x.Lhs {
+						id, ok := l.(*ast.Ident)
+						if !ok {
+							continue
+						}
+						v, _ := info.ObjectOf(id).(*types.Var)
+						if v == nil {
+							continue
+						}
+						writes[v]++
+						if x.Tok != token.DEFINE || len(x.Lhs) != len(x.Rhs) {
+							continue
+						}
+						var fn *types.Func
+						switch e := ast.Unparen(x.Rhs[i]).(type) {
+						case *ast.Ident:
+							fn, _ = info.Uses[e].(*types.Func)
+						case *ast.SelectorExpr:
+							fn, _ = info.Uses[e.Sel].(*types.Func)
+						}
+						if fn != nil {
+							cand[v] = fn
+						}
+					}
+				case *ast.UnaryExpr:
+					if x.Op == token.AND {
+						if id, ok := ast.Unparen(x.X).(*ast.Ident); ok {
+							if v, _ := info.ObjectOf(id).(*types.Var); v != nil {
+								writes[v] += 2
+							}
+						}
+					}
+				case *ast.IncDecStmt:
+					if id, ok := x.X.(*ast.Ident); ok {
+						if v, _ := info.ObjectOf(id).(*types.Var); v != nil {
+							writes[v]++
+						}
+					}
+				}
+				return true
+			})
+		}
+		for v, fn := range cand {
+			if writes[v] == 1 {
+				funcAlias[v] = fn.Origin()
+			}
+		}
+	}
 }
 
 func (p *Program) Pkg(rel string) *packages.Package { return p.byRel[rel] }
@@ -374,13 +443,20 @@ func CalleeName(info *types.Info, call *ast.CallExpr) string {
 		return o.Origin().FullName()
 	case *types.Builtin:
 		return "builtin." + o.Name()
+	case *types.Var:
+		if fn := funcAlias[o]; fn != nil {
+			return fn.FullName()
+		}
 	}
 	return ""
 }
 
 func CalleeFunc(info *types.Info, call *ast.CallExpr) *types.Func {
-	if f, ok := typeutil.Callee(info, call).(*types.Func); ok {
-		return f.Origin()
+	switch o := typeutil.Callee(info, call).(type) {
+	case *types.Func:
+		return o.Origin()
+	case *types.Var:
+		return funcAlias[o]
 	}
 	return nil
 }
